@@ -28,7 +28,7 @@ def refine_task(qual, variants, params, typed=False, exclude_self_summary=True):
     """generic: run the real body of circuit.py::<qual> for each variant and compare with its summary."""
     def run(ctx):
         fn, seg, sha = engine.find_function(F, qual)
-        info = {"function": f"{F}::{qual}", "sha256": sha, "lines": [fn.lineno, fn.end_lineno], "variants": []}
+        info = {"function": f"{F}::{qual}", "sha256": sha, "lines": engine.abs_lines(fn), "variants": []}
         for vname, shapes in variants.items():
             label = f"{qual}[{vname}]"
             ex = _ex(ctx, label)
@@ -136,7 +136,7 @@ def _requires_present(ex, st0, me, args):
 def setter_task(qual, params, extra_shapes, loop, requires=None):
     def run(ctx):
         fn, seg, sha = engine.find_function(F, qual)
-        info = {"function": f"{F}::{qual}", "sha256": sha, "lines": [fn.lineno, fn.end_lineno], "variants": []}
+        info = {"function": f"{F}::{qual}", "sha256": sha, "lines": engine.abs_lines(fn), "variants": []}
         for vname, shapes in {"str": ["str"], "list(all present)": ["list"], "set(all present)": ["set"]}.items():
             label = f"{qual}[{vname}]"
             ex = _orig_ex(ctx, label, {1: loop})
@@ -198,7 +198,7 @@ def uid_task(ctx):
         ctx.oblige(f"{qual}[str]/post#{i}:result-is-not-a-node", o.st.pc, z3.Not(g0.node(r)), "post")
         ctx.oblige(f"{qual}[str]/post#{i}:free-name-is-kept", o.st.pc, z3.Implies(z3.Not(g0.node(n.term)), r == n.term), "post")
         ctx.oblige(f"{qual}[str]/frame#{i}", o.st.pc, verify.heap_eq(ex, o.st.heap, st0.heap, list(st0.heap)), "frame")
-    return {"function": f"{F}::{qual}", "sha256": sha, "lines": [fn.lineno, fn.end_lineno], "variants": ["str (blocked=None)"]}
+    return {"function": f"{F}::{qual}", "sha256": sha, "lines": engine.abs_lines(fn), "variants": ["str (blocked=None)"]}
 
 
 TASKS["layer1/Circuit.uid"] = uid_task
@@ -208,7 +208,7 @@ def add_task(uid):
     def run(ctx):
         qual = "Circuit.add"
         fn, seg, sha = engine.find_function(F, qual)
-        info = {"function": f"{F}::{qual}", "sha256": sha, "lines": [fn.lineno, fn.end_lineno], "variants": []}
+        info = {"function": f"{F}::{qual}", "sha256": sha, "lines": engine.abs_lines(fn), "variants": []}
         from pyvc import spec
         from pyvc.engine import NONE, TypeV
         shapes = {"none": lambda ex, tag: NONE, "str": lambda ex, tag: _arg(ex, "str", tag), "list": lambda ex, tag: _arg(ex, "list", tag)}
